@@ -379,4 +379,58 @@ theorem voxelize_point_filled (bmin bmax : K × K × K) (pts : List (K × K × K
       ⟨⟨by linarith, by linarith⟩, ⟨by linarith, by linarith⟩, ⟨by linarith, by linarith⟩⟩
     exact ⟨i, bb, hi, (hfill i bb hi).mpr ⟨pt, hpt, hpad⟩, hpad⟩
 
+theorem length_flatMap_const {α β : Type} (l : List α) (f : α → List β) (c : ℕ)
+    (h : ∀ a ∈ l, (f a).length = c) : (l.flatMap f).length = l.length * c := by
+  induction l with
+  | nil => simp
+  | cons a l ih =>
+    rw [List.flatMap_cons, List.length_append, h a List.mem_cons_self,
+      ih (fun b hb => h b (List.mem_cons_of_mem _ hb)), List.length_cons]
+    ring
+
+theorem frange_grid_axis (lo hi : K) (n fuel : ℕ) (hn : 2 ≤ n) (hlt : lo < hi) (hf : n ≤ fuel) :
+    frange lo hi ((hi - lo) / ((n - 1 : ℕ) : K)) fuel
+      = some ((List.range n).map (fun (j : ℕ) => lo + (j : K) * ((hi - lo) / ((n - 1 : ℕ) : K)))) := by
+  have hpos : (0 : K) < ((n - 1 : ℕ) : K) := by
+    have : 0 < n - 1 := by omega
+    exact_mod_cast this
+  have hs : 0 < (hi - lo) / ((n - 1 : ℕ) : K) := div_pos (sub_pos.mpr hlt) hpos
+  have hb : lo + ((n - 1 : ℕ) : K) * ((hi - lo) / ((n - 1 : ℕ) : K)) = hi := by
+    field_simp; ring
+  have h := frange_exact lo _ hs (n - 1) fuel (by omega)
+  rw [hb] at h
+  have e : n - 1 + 1 = n := by omega
+  rw [e] at h
+  exact h
+
+/-- cuboid voxels, a bounding box of positive extent in every direction: the grid is the full
+    product of `size` values per axis (`min + j·step`, `j < size`), hence has `s₀·s₁·s₂` voxels -/
+theorem generateVoxelGrid_cuboid (bmin bmax : K × K × K) (sz : ℕ × ℕ × ℕ) (fuel : ℕ)
+    (hs1 : 2 ≤ sz.1) (hs2 : 2 ≤ sz.2.1) (hs3 : 2 ≤ sz.2.2)
+    (h1 : bmin.1 < bmax.1) (h2 : bmin.2.1 < bmax.2.1) (h3 : bmin.2.2 < bmax.2.2)
+    (hf1 : sz.1 ≤ fuel) (hf2 : sz.2.1 ≤ fuel) (hf3 : sz.2.2 ≤ fuel) :
+    let s := voxelSteps bmin bmax sz false
+    ∃ g, generateVoxelGrid bmin bmax sz false fuel = some g ∧
+      g = (List.range sz.1).flatMap (fun (i : ℕ) => (List.range sz.2.1).flatMap (fun (j : ℕ) => (List.range sz.2.2).map (fun (k : ℕ) =>
+        ((bmin.1 + (i : K) * s.1, bmin.2.1 + (j : K) * s.2.1, bmin.2.2 + (k : K) * s.2.2),
+         (bmin.1 + (i : K) * s.1 + s.1, bmin.2.1 + (j : K) * s.2.1 + s.2.1, bmin.2.2 + (k : K) * s.2.2 + s.2.2))))) ∧
+      g.length = sz.1 * (sz.2.1 * sz.2.2) := by
+  intro s
+  have e1 := frange_grid_axis bmin.1 bmax.1 sz.1 fuel hs1 h1 hf1
+  have e2 := frange_grid_axis bmin.2.1 bmax.2.1 sz.2.1 fuel hs2 h2 hf2
+  have e3 := frange_grid_axis bmin.2.2 bmax.2.2 sz.2.2 fuel hs3 h3 hf3
+  have hg : ¬ (sz.1 ≤ 1 ∨ sz.2.1 ≤ 1 ∨ sz.2.2 ≤ 1) := by omega
+  refine ⟨_, ?_, rfl, ?_⟩
+  · unfold generateVoxelGrid
+    rw [if_neg hg]
+    simp only [Bool.false_eq_true, if_false]
+    rw [e1, e2, e3]
+    simp only [s, voxelSteps, Bool.false_eq_true, if_false, List.flatMap_map, List.map_map]
+    rfl
+  · rw [length_flatMap_const _ _ (sz.2.1 * sz.2.2), List.length_range]
+    intro i _
+    rw [length_flatMap_const _ _ sz.2.2, List.length_range]
+    intro j _
+    simp
+
 end Geomdl
